@@ -91,6 +91,10 @@ def run(ctx):
                         for a in c.args for x in ast.walk(a))
             if tables:
                 red.append((c, kind, tables, finest, alllv, norm(c.func)))
+    # a reducer nested in the argument of another one (the per-level minimum inside the all-levels minimum) is part
+    # of the outer reduction
+    inner = {id(x) for r in red for a in r[0].args for x in ast.walk(a)}
+    red = [r for r in red if id(r[0]) not in inner]
     for kind, table in (("min", "mins"), ("max", "maxs")):
         mine = [r for r in red if r[1] == kind]
         wrong = [r for r in mine if r[2] != {table}]
